@@ -1,4 +1,6 @@
 import Moclo.Model.Assembly
+import Moclo.Model.Cache
+import Moclo.Model.Registry
 /-!
 # Line protocol of the correspondence check
 
@@ -114,6 +116,14 @@ def parseEnt (s : String) : Option Ent :=
     pure { oid := ← oid.toNat?, spec := spec, rcd := ← parseRec rest, faulty := faulty == "1" }
   | _ => none
 
+/-- `kind^pat^site^off^k` -/
+def parseSpec (s : String) : Option ClassSpec :=
+  match s.splitOn "^" with
+  | [kind, pat, site, off, k] => do
+    pure { kind := ← parseKind kind, pat := ← parsePat pat,
+           geom := { site := ← parseNts site, off := ← off.toNat?, k := ← k.toNat? } }
+  | _ => none
+
 def showErr : Err → String
   | .invalid => "invalid" | .illegal => "illegal" | .duplicate => "duplicate"
   | .missing o => "missing:" ++ showWord o | .injected => "injected" | .internal => "internal"
@@ -219,6 +229,31 @@ def step (line : String) : String :=
                     showNats p.commentModules, showNats p.unused]
       tab (o ++ ["INPUTS"] ++ after.map showRec)
     | _, _, _, _ => "bad-op"
+  | ["HIST", classes, queries] =>
+    match (splitList "|" classes).mapM parseSpec,
+          (splitList ";" queries).mapM (fun q => match q.splitOn ":" with
+            | [i, w] => do pure ((← i.toNat?), (← parseWord w))
+            | _ => none) with
+    | some specs, some qs =>
+      let spec := fun (i : Nat) => specs.getD i default
+      String.ofList ((histVerdicts spec [] qs).map (fun b => if b then '1' else '0'))
+    | _, _ => "bad-op"
+  | ["COMBINE", members] =>
+    let parseMember := fun (m : String) => (splitList "," m).mapM (fun e => match e.splitOn ":" with
+      | [k, v] => do pure ((← k.toNat?), (← v.toNat?))
+      | _ => none)
+    match (splitList "|" members).mapM parseMember with
+    | some ms =>
+      let r : Reg Nat Nat := Reg.combine ms
+      sepList "," (r.map (fun e => s!"{e.1}:{e.2}"))
+    | none => "bad-op"
+  | ["CHAR", classes, w] =>
+    match (splitList "|" classes).mapM parseSpec, parseWord w with
+    | some specs, some w =>
+      match specs.findIdx? (fun c => c.isValid w) with
+      | some i => toString i
+      | none => "none"
+    | _, _ => "bad-op"
   | _ => "bad-op"
 
 end Moclo.Wire
